@@ -26,8 +26,12 @@ RULE = ("histories of 3-40 steps on one daemon with 1-3 interface addresses: res
         "timeouts {none,0,1,999,1000,1001,10000,2^63,2^64-1}, stop_resolve_hostname in any case, repeated resolves of the "
         "same name, responses carrying A/AAAA for the names in other letter cases (answer / additional sections, with and "
         "without PTR/SRV/TXT company, cache-flush on/off), TTLs 0..4500, goodbyes, changing address sets, steps at "
-        "arbitrary times (early, exact `wake`, late) and timer-exact run_until horizons up to 3 hours; non-trivial = at "
-        "least one hostname event or query observed; distinct = distinct case lines")
+        "arbitrary times (early, exact `wake`, late) and timer-exact run_until horizons up to 3 hours; plus a model-free "
+        "family (120 quick / 1500 thorough): names with NON-ASCII capitals in the spelling that starts the search, answers "
+        "in another letter case (Unicode lower-casing), stop in a third spelling or a timeout or an expiring TTL, judged "
+        "directly against the property text (SearchStarted first, question at start, address reported under the answer's "
+        "spelling, removal at expiry, exactly one SearchStopped last and no question afterwards, SearchTimeout+SearchStopped "
+        "exactly at start+timeout); non-trivial = at least one hostname event or query observed; distinct = distinct case lines")
 TRUSTED = [
     "Coq 8.16.1 kernel (coqc)",
     "axioms: none expected (Print Assumptions output recorded in this file)",
@@ -39,7 +43,7 @@ TRUSTED = [
     "(only 'PTR in the answer section' matters without a browse), ASCII-only case mapping",
 ]
 PARTIAL = ("model domain: no browse / register calls in the same daemon; non-ASCII cased letters are outside the case "
-           "theorem; events and queries happen in loop iterations, so 'at start+timeout' / 'at last+gap' mean the first "
+           "theorem and the model (ASCII folding): they are covered by the model-free family only, without proof; events and queries happen in loop iterations, so 'at start+timeout' / 'at last+gap' mean the first "
            "iteration at or after that time (exactly then when the daemon is woken as it asked); wake-up requests are "
            "checked by the monitor (wake <= next due time) but wake-up arithmetic itself is C12's")
 
@@ -272,6 +276,136 @@ def fixed_histories():
     return out
 
 
+# ------------------------------------------------------------------------------------------ model-free family
+# Names with NON-ASCII capitals in the spelling that starts the search (the Coq model folds ASCII
+# letters only, so these histories are judged without it, directly against the property text):
+# resolve; answers for the name in another letter case (Unicode lower-casing); stop in yet another
+# spelling, or the timeout.  Expected: SearchStarted first; the answer's address in an AddressesFound
+# in the iteration of delivery, under the answer's spelling; AddressesRemoved when its TTL runs out
+# while the search is open; stop -> exactly one SearchStopped (lower-cased name), last event, no
+# A/AAAA question for the name afterwards; timeout -> SearchTimeout then SearchStopped at
+# start + timeout exactly (timer-exact run), last events, no question at or after the deadline.
+NAC_HOSTS = ["BÜCHER-Regal.local.", "ÉCOLE.local.", "Ünit-Ж.local.", "ÑANDÚ-7.local.", "Ærø-Åsa.local.", "ΑΘΗΝΑ-pc.local."]
+
+
+def nac_variant(rng, host):
+    base = host[:-len(".local.")]
+    v = rng.choice([base.lower(), base.upper(), base.swapcase(), base.title(), base])
+    if v.lower() != base.lower():
+        v = base.lower()
+    return v + ".local."
+
+
+def gen_nac(rng, hid):
+    t0 = L.T0
+    host = rng.choice(NAC_HOSTS)
+    kind = rng.choice(["stop", "stop", "timeout", "timeout", "expire"])
+    timeout = rng.choice([1500, 3000, 3001, 7000]) if kind == "timeout" else None
+    call = {"op": "resolve_hostname", "host": host, "ch": "h1"}
+    if timeout is not None:
+        call["timeout"] = timeout
+    steps = [{"t": t0, "d": 0, "calls": [{"op": "set_ip_check_interval", "secs": 0}, call]}]
+    answers = []
+    t = t0
+    for k in range(rng.choice([1, 1, 2])):
+        t += rng.choice([100, 400, 1100])
+        if timeout is not None and t >= t0 + timeout:
+            break
+        owner = nac_variant(rng, host)
+        addr = rng.choice(V4[:4])
+        ttl = 5 if kind == "expire" else rng.choice([120, 60])
+        steps.append({"run_until": t, "max_iters": 100})
+        steps.append({"t": t, "d": 0, "dgrams": [{"if": 2, "v4": True, "src": "192.168.1.99:5353",
+                                                  "hex": L.build_packet([L.rec_addr(1, owner, addr, ttl, flush=False)])}]})
+        answers.append({"t": t, "owner": owner, "addr": addr, "ttl": ttl})
+    stop = None
+    if kind == "stop":
+        t += rng.choice([50, 700, 2600])
+        stop = t
+        steps.append({"run_until": t, "max_iters": 100})
+        steps.append({"t": t, "d": 0, "calls": [{"op": "stop_resolve_hostname", "host": rng.choice([host, nac_variant(rng, host)])}]})
+    steps.append({"run_until": t0 + 30000, "max_iters": 300})
+    return {"id": hid, "mf17": {"kind": kind, "host": host, "timeout": timeout, "stop": stop, "answers": answers},
+            "t0": t0, "daemons": [{"seed": 1, "ifaces": [L.IF2_V4]}], "link": "none", "steps": steps}
+
+
+def is_nac(line):
+    return '"mf17":' in line[:200]
+
+
+def project_nac(line, raw):
+    import ipaddress
+    h = json.loads(line)
+    res = json.loads(raw)
+    if "error" in res:
+        return "MF harness-error"
+    mf = h["mf17"]
+    key = mf["host"].lower()
+    t0 = h["t0"]
+    evs, queries = [], []
+    for rec in res["trace"]:
+        if "it" not in rec:
+            continue
+        if rec.get("stuck") or rec.get("exited"):
+            return "MF daemon-died at %d" % rec.get("now", 0)
+        for e in (rec.get("events") or {}).get("h1", []):
+            evs.append((rec["now"], e))
+        for q in L.sent_queries(rec, (2, True)):
+            if any(n.decode("utf-8", "replace").lower() == key and ty in (1, 28) for n, ty in q):
+                queries.append(rec["now"])
+    names = [e["e"] for _, e in evs if e["e"] != "<closed>"]
+    if not names or names[0] != "SearchStarted":
+        return "MF no-SearchStarted-first events=%s" % names[:3]
+    if not queries or queries[0] != t0:
+        return "MF no-question-at-start queries=%s" % queries[:3]
+    end = None   # time at which the search ends
+    if mf["kind"] == "stop":
+        end = mf["stop"]
+    elif mf["kind"] == "timeout":
+        end = t0 + mf["timeout"]
+    for a in mf["answers"]:
+        if end is not None and a["t"] >= end:
+            continue
+        want = (ipaddress.ip_address(a["addr"]).packed, 2)
+        earlier = [b for b in mf["answers"] if b["t"] < a["t"] and b["owner"] == a["owner"] and b["addr"] == a["addr"]
+                   and b["t"] + b["ttl"] * 1000 > a["t"]]
+        if earlier:
+            continue          # the same record again: a refresh, no new event is required
+        found = [e for tt, e in evs if tt == a["t"] and e["e"] == "AddressesFound" and e.get("host") == a["owner"]
+                 and want in sum((L.addr_token(x) for x in e.get("addrs", [])), [])]
+        if not found:
+            return "MF answer-not-reported owner=%s at %d" % (a["owner"], a["t"])
+        exp = a["t"] + a["ttl"] * 1000
+        later = [b for b in mf["answers"] if b["t"] > a["t"] and b["owner"] == a["owner"] and b["addr"] == a["addr"]]
+        if (end is None or exp < end) and exp <= t0 + 30000 and not later:
+            rem = [tt for tt, e in evs if e["e"] == "AddressesRemoved" and e.get("host") == a["owner"]
+                   and want in sum((L.addr_token(x) for x in e.get("addrs", [])), [])]
+            if rem != [exp]:
+                return "MF expiry-not-reported owner=%s expected %d got %s" % (a["owner"], exp, rem)
+    if mf["kind"] == "stop":
+        if names.count("SearchStopped") != 1 or names[-1] != "SearchStopped":
+            return "MF stop SearchStopped-missing-or-not-last events=%s" % names[-4:]
+        st = [(tt, e) for tt, e in evs if e["e"] == "SearchStopped"][0]
+        if st[0] != end or st[1].get("host") != key:
+            return "MF stop SearchStopped wrong time/name %s" % (st,)
+        late = [q for q in queries if q > end]
+        if late:
+            return "MF stop question-after-stop at %s" % late[:3]
+    elif mf["kind"] == "timeout":
+        if names[-2:] != ["SearchTimeout", "SearchStopped"] or names.count("SearchTimeout") != 1 or names.count("SearchStopped") != 1:
+            return "MF timeout events-not-Timeout-Stopped-last events=%s" % names[-4:]
+        tt = [x for x, e in evs if e["e"] in ("SearchTimeout", "SearchStopped")]
+        if tt != [end, end]:
+            return "MF timeout not-at-deadline %s expected %d" % (tt, end)
+        late = [q for q in queries if q >= end]
+        if late:
+            return "MF timeout question-at-or-after-deadline at %s" % late[:3]
+    else:
+        if "SearchStopped" in names or "SearchTimeout" in names:
+            return "MF open-search ended events=%s" % names[-4:]
+    return "MF ok"
+
+
 def generate(rng, tier):
     n = 1500 if tier == "quick" else 12000
     cases = [Case(L.dumps(h), "fixed") for h in fixed_histories()]
@@ -288,6 +422,8 @@ def generate(rng, tier):
             hist = g.history(rng.choice([3, 6, 10, 16, 24, 36]), rng.choice([3000, 20000, 200000, 5000000]))
             tag = "structured"
         cases.append(Case(L.dumps(hist), tag))
+    for i in range(120 if tier == "quick" else 1500):
+        cases.append(Case(L.dumps(gen_nac(rng, "mf17-%d" % i)), "model-free-non-ascii"))
     return cases
 
 
@@ -337,6 +473,8 @@ def ev_tokens(chan, evs):
 
 
 def project(line, raw):
+    if is_nac(line):
+        return project_nac(line, raw)
     h = json.loads(line)
     res = json.loads(raw)
     if "error" in res:
@@ -366,6 +504,8 @@ def project(line, raw):
 def model_input(line, raw):
     """History as the model sees it: per iteration of the trace its time, the wake-up the daemon
     asked for afterwards, the accepted calls and the responses that reached handle_response."""
+    if is_nac(line):
+        return "mf17"
     h = json.loads(line)
     res = json.loads(raw)
     if "error" in res:
@@ -396,6 +536,8 @@ def model_input(line, raw):
 
 
 def nontrivial(line, result):
+    if is_nac(line):
+        return result.startswith("MF ")
     return result.startswith("OBS ") and any(not x.endswith(";-;-") for x in result[4:].split("|"))
 
 
@@ -404,6 +546,8 @@ def known_class(line, impl_result, mon_result):
 
 
 def shrink(line, still_bad):
+    if is_nac(line):
+        return line      # the expectation is part of the history: not shrunk
     return vlib.shrink_history(line, still_bad)
 
 
